@@ -134,6 +134,18 @@ theorem C03_one_entry_per_call (p : Prog) :
     (planOutputs [] p).length = ((sendsOf p).filter (fun x => x.2.isSome)).length := by
   rw [planOutputs_eq_numberK]; exact ⟨numberK_nodup _ _, numberK_length _ _⟩
 
+/-- The same on the recording itself: in the outputs extracted from the recording a run leaves (started fresh: no outputs
+yet, counters empty; the recording survived, i.e. was not discarded) the key (alias, n) holds what the n-th call on that alias
+sent. Two recordings therefore differ under an output key iff those n-th sends differ (`C03_difference_exact`). -/
+theorem C03_recording_lookup_is_planned (p : Prog)
+    (hwf : p.All (fun cfg args _ => InputKeyShape cfg args) (fun _ _ _ => True))
+    (s : St) (a aF : Active) (hp : s.playback = none) (he : s.enabled = true) (hi : s.inInt = false)
+    (ha : s.active = some a) (hact : (exec s p).1.active = some aF)
+    (hc : s.counter = []) (h0 : extractOutputs a.data = []) (k : Key) :
+    getD (extractOutputs aF.data) k = getD (planOutputs [] p) k := by
+  rw [recorded_is_sent p hwf s a aF hp he hi ha hact, h0, hc, List.append_nil]
+  exact getD_reverse_of_nodup _ (by rw [planOutputs_eq_numberK]; exact numberK_nodup _ _) k
+
 /-- Replay side, whole run: what a replay of ANY program `p'` against ANY recording `r` captures is the recorder numbering of
 the output calls `p'` makes along its replay path (each interception answered from `r` or by the missing-key policy; no site
 opted in to run-original, so no body runs) - one entry per call whose value could be captured, appended in call order. -/
